@@ -366,8 +366,62 @@ def handleArray (j : Json) : P Json := do
   pure (Json.mkObj [("ctor", rToJson arrayValToJson ctor), ("setters", Json.arr outs.toArray), ("body", body),
     ("back", back), ("slices", slices)])
 
+-- ---------- the Metadata codec (C03)
+
+partial def pyvalOfJson (j : Json) : P PyVal := do
+  let t ← strField j "t"
+  let st : Option String := (optField j "st").bind (fun v => v.getStr?.toOption)
+  match t with
+  | "none" => pure .none
+  | "bool" => pure (.bool (← (← j.getObjVal? "v").getBool?))
+  | "num" => pure (.num (← strField j "kind") (← strField j "repr"))
+  | "npnum" => pure (.npnum (← strField j "dtype") (← strField j "kind") (← strField j "repr"))
+  | "npbool" => pure (.npbool (← (← j.getObjVal? "v").getBool?))
+  | "str" => pure (.str (← strField j "v"))
+  | "bytes" => pure (.bytes (← strField j "v"))
+  | "arr" => pure (.arr (← strField j "tok"))
+  | "tuple" => pure (.tuple (← (← arrField j "xs").mapM pyvalOfJson) st)
+  | "list" => pure (.list (← (← arrField j "xs").mapM pyvalOfJson) st)
+  | "seq" => pure (.seqNp (← (← j.getObjVal? "tuple").getBool?) (← strField j "tok"))
+  | "dict" =>
+    let items ← (← arrField j "items").mapM (fun e => do
+      let pr ← e.getArr?
+      if pr.size != 2 then throw "bad item"
+      pure ((← pr[0]!.getStr?), (← pyvalOfJson pr[1]!)))
+    pure (.dict items)
+  | _ => pure (.other ((optField j "kind").bind (fun v => v.getStr?.toOption) |>.getD t))
+
+partial def pyvalToJson : PyVal → Json
+  | .none => Json.mkObj [("t", "none")]
+  | .bool b => Json.mkObj [("t", "bool"), ("v", b)]
+  | .num k r => Json.mkObj [("t", "num"), ("kind", .str k), ("repr", .str r)]
+  | .npnum d k r => Json.mkObj [("t", "npnum"), ("dtype", .str d), ("kind", .str k), ("repr", .str r)]
+  | .npbool b => Json.mkObj [("t", "npbool"), ("v", b)]
+  | .str s => Json.mkObj [("t", "str"), ("v", .str s)]
+  | .bytes s => Json.mkObj [("t", "bytes"), ("v", .str s)]
+  | .arr t => Json.mkObj [("t", "arr"), ("tok", .str t)]
+  | .tuple xs _ => Json.mkObj [("t", "tuple"), ("xs", Json.arr (xs.map pyvalToJson).toArray)]
+  | .list xs _ => Json.mkObj [("t", "list"), ("xs", Json.arr (xs.map pyvalToJson).toArray)]
+  | .seqNp b t => Json.mkObj [("t", "seq"), ("tuple", b), ("tok", .str t)]
+  | .dict items => Json.mkObj [("t", "dict"), ("items", Json.arr (items.map (fun (k, v) => Json.arr #[.str k, pyvalToJson v])).toArray)]
+  | .other k => Json.mkObj [("t", "other"), ("kind", .str k)]
+
+def handleMd (j : Json) : P Json := do
+  let items ← (← arrField j "items").mapM (fun e => do
+    let pr ← e.getArr?
+    if pr.size != 2 then throw "bad item"
+    pure ((← pr[0]!.getStr?), (← pyvalOfJson pr[1]!)))
+  let cls := (optField j "cls").bind (fun v => v.getStr?.toOption) |>.getD "Metadata"
+  let o := mdToObj cls items
+  let back : Json := match o with
+    | .ok g => rToJson (fun l => Json.arr (l.map (fun (k, v) => Json.arr #[.str k, pyvalToJson v])).toArray) (mdFromObj g)
+    | .error _ => Json.null
+  let can := Json.arr ((canonItems items).map (fun (k, v) => Json.arr #[.str k, pyvalToJson v])).toArray
+  pure (Json.mkObj [("obj", rToJson objToJson o), ("back", back), ("canon", can)])
+
 def handle (op : String) (j : Json) : P Json := do
   match op with
+  | "md" => handleMd j
   | "array" => handleArray j
   | "forest" =>
     let steps ← arrField j "steps"
